@@ -44,7 +44,7 @@ class ZipfGen:
         elif r.random() < 0.5:
             n = r.randrange(1, 3000)
         else:
-            n = int(10 ** r.uniform(0, 6.3))
+            n = int(10 ** r.uniform(0, 6.6))
         n = max(1, min(n, self.max_exact_n if cls == 'exact' else self.max_approx_n))
         # bounds: keep n + kSkipSize + 1 representable (near-limit *ranges* are the known finding F8)
         span_ok = hi - lo - 300
